@@ -67,7 +67,7 @@ func c12Store(c *vlib.Ctx) {
 
 // C12: admission limits (depth, drop policy, size limits, rate limit).
 func C12(c *vlib.Ctx) {
-	c.Rule("store part: generated enqueue-heavy sequences on memory and SQLite for max_depth 1..8 x reject/drop_oldest (+ lowered memory-pressure limits on memory); an independent admission model predicts admit/refuse and the exact evicted set from the snapshot before each enqueue, and every refusal must leave the snapshot unchanged; racing producers: rounds of fill / one refusal / k slots freed by ack, dead-letter or cancel / 4-12 producers released together (single and batch enqueues), at every quiescent point active <= max_depth, under reject at most k admitted, refusals are queue_full and store nothing. ingress part: body/header sizes around max_body/max_headers through the production ingress handler and arrival sequences through the production token-bucket limiter under a virtual clock. distinct_nontrivial = distinct (backend, operation, result class, observed transitions) tuples plus distinct limiter/size classes.")
+	c.Rule("store part: generated enqueue-heavy sequences on memory and SQLite for max_depth 1..8 x reject/drop_oldest (+ lowered memory-pressure limits on memory); an independent admission model predicts admit/refuse and the exact evicted set from the snapshot before each enqueue, and every refusal must leave the snapshot unchanged; racing producers: rounds of fill / one refusal / k slots freed by ack, dead-letter or cancel / 4-12 producers released together (single and batch enqueues), at every quiescent point active <= max_depth, under reject at most k admitted, refusals are queue_full and store nothing; reload part: queue_limits edited (policy flipped, depth raised / lowered / introduced / removed) and reloaded through the production wiring - ten requests into the empty queue must be answered and kept as after a fresh start of the configuration the process reports as running. ingress part: body/header sizes around max_body/max_headers through the production ingress handler and arrival sequences through the production token-bucket limiter under a virtual clock. distinct_nontrivial = distinct (backend, operation, result class, observed transitions) tuples plus distinct limiter/size classes.")
 	c.Assume("received_at strictly increasing in enqueue order (the generator never sets out-of-order values here), retention off, so 'oldest' and the active count are unambiguous")
 	c.Assume("states with active > max_depth (after operator requeue/resume) are skipped as the quantifier says")
 	if os.Getenv("VERIF_PART") == "concurrent" {
@@ -78,5 +78,6 @@ func C12(c *vlib.Ctx) {
 	}
 	c12Store(c)
 	c12DepthConcurrent(c)
+	c12LimitsReload(c)
 	c12Ingress(c)
 }
